@@ -33,6 +33,7 @@ GLOBAL_BENIGN = [
     {"id": "global-instrument", "kind": "benign", "transform": "instrument", "why": "a logging.debug call inserted at the top of every function"},
     {"id": "global-mirror-compare", "kind": "benign", "transform": "mirror", "why": "every comparison of side-effect-free operands mirrored (a < b -> b > a, a == b -> b == a)"},
     {"id": "global-augassign-expand", "kind": "benign", "transform": "augexpand", "why": "every x += y / x -= y rewritten as x = x + y / x = x - y"},
+    {"id": "global-return-ifexp", "kind": "benign", "transform": "returnifexp", "why": "every `if c: return A else: return B` rewritten as `return A if c else B`"},
     {"id": "global-negate-if", "kind": "benign", "transform": "negateif", "why": "every if/else rewritten as `if not c: <else-branch> else: <then-branch>`"},
 ]
 
